@@ -43,7 +43,10 @@ type CHCase struct {
 	// equal sizes), as after `cp -p`, `touch -r`, a restore from backup or on a coarse-clocked file system:
 	// size and mtime do not identify content
 	FixedMtime bool   `json:"fixed_mtime,omitempty"`
-	Ops        []CHOp `json:"ops"`
+	// Via: every invocation addresses the project through a symbolic link in its path ($HOME/via -> .): working
+	// directory, $PWD and --spokfile carry $HOME/via/proj/..., the files live in $HOME/proj
+	Via bool   `json:"via,omitempty"`
+	Ops []CHOp `json:"ops"`
 	Sched      Sched  `json:"sched"`
 }
 
@@ -215,6 +218,7 @@ func (cachehist) Gen(r *Rng, cfg GenConfig) any {
 		}
 	}
 	c.FixedMtime = r.Chance(1, 4)
+	c.Via = cfg.Prop != "nowriters" && r.Chance(1, 8)
 	c.Prog.Seq = r.Chance(1, 4)
 	if len(c.Prog.Tasks) >= 2 && r.Chance(1, 10) {
 		// two tasks whose names differ only in letter case, with the same dependencies: distinct tasks
@@ -500,6 +504,15 @@ type projState struct {
 	inv        int
 	links      map[string]string // dependency files that are symbolic links: path -> target path (project relative)
 	fixedMtime bool
+	via        bool // invocations address the project as $HOME/via/proj
+}
+
+// addr is the path under which invocations address the project.
+func (s *projState) addr() string {
+	if s.via {
+		return filepath.Join(s.w.Home, "via", filepath.Base(s.w.Proj))
+	}
+	return s.w.Proj
 }
 
 // withLinks adds the symbolic links to a model disk: a link has the content of its target and does
@@ -770,6 +783,11 @@ func (cachehist) Exec(w *World, cc any, prop string) *Result {
 	if c.FixedMtime {
 		res.count("fault_present:fixed_modification_times")
 	}
+	if c.Via {
+		must(os.Symlink(".", filepath.Join(w.Home, "via")))
+		s.via = true
+		res.count("fault_present:project_reached_through_symlinked_path")
+	}
 	for _, l := range sortedKeys(c.Links) {
 		full := filepath.Join(w.Proj, filepath.FromSlash(l))
 		target, err := filepath.Rel(filepath.Dir(full), filepath.Join(w.Proj, filepath.FromSlash(c.Links[l])))
@@ -870,21 +888,28 @@ func (s *projState) judgeRun(res *Result, sched Sched, forceBefore bool, oi stri
 		res.event("%s run skipped (undefined task in request)", oi)
 		return false
 	}
-	cwd := filepath.Join(w.Proj, filepath.FromSlash(op.Cwd))
+	cwd := filepath.Join(s.addr(), filepath.FromSlash(op.Cwd))
 	if st, err := os.Stat(cwd); err != nil || !st.IsDir() {
-		cwd = w.Proj
+		cwd = s.addr()
 	}
 	args := runArgs(op)
 	switch op.Spokfile {
 	case "abs":
-		args = append(args, "--spokfile", filepath.Join(w.Proj, "spokfile"))
+		args = append(args, "--spokfile", filepath.Join(s.addr(), "spokfile"))
 	case "rel":
-		relp, err := filepath.Rel(cwd, filepath.Join(w.Proj, "spokfile"))
+		relp, err := filepath.Rel(cwd, filepath.Join(s.addr(), "spokfile"))
 		must(err)
 		args = append(args, "--spokfile", relp)
 	case "home":
 		cwd = w.Home
 		args = append(args, "--spokfile", filepath.Join("proj", "spokfile"))
+		if s.via {
+			args[len(args)-1] = filepath.Join("via", "proj", "spokfile")
+		}
+	}
+	env := w.BaseEnv()
+	if s.via {
+		env["PWD"] = cwd
 	}
 	if op.Spokfile != "" {
 		res.count("probe:run_with_spokfile_flag")
@@ -894,7 +919,7 @@ func (s *projState) judgeRun(res *Result, sched Sched, forceBefore bool, oi stri
 	for _, n := range closure {
 		classes = append(classes, s.stateClass(s.prog.Task(n)))
 	}
-	obs := w.Invoke(Invocation{Args: args, Cwd: cwd, Env: w.BaseEnv(), Inv: s.inv, Sched: sched, Faults: NoFaults()})
+	obs := w.Invoke(Invocation{Args: args, Cwd: cwd, Env: env, Inv: s.inv, Sched: sched, Faults: NoFaults()})
 	s.inv++
 	res.Steps += len(obs.Trace)
 	delta := s.logDelta()
